@@ -97,6 +97,16 @@ def run(ctx, rep):
                "acquire(...) must be non-blocking: a send re-entered from a finalizer while this thread holds the "
                "lock would otherwise wait for itself" if not K.nonblocking_acquire(c) else
                "acquire is called with blocking=False", ctx.loc(c), kind="site")
+    # the failed try-acquire is the re-entrancy hand-off: the sender leaves, it does not wait for the lock in any form
+    for (n, lab) in fail_edges:
+        starts = [t for t, l in n.succ if l == lab]
+        acq_ids = {x.id for x in acq_nodes}
+        p = Q.find_path_ef(starts, lambda x: x.id in acq_ids, lambda a, b, l: l != "exc", skip_first=False) if starts else None
+        rep.ob("R12.5", "Connection send layer: a failed try-acquire returns (hand-off to the lock holder), it never retries", p is None,
+               "no path from the failed acquire leads back to an acquire" if p is None else
+               "after a failed try-acquire the sender loops back and tries again: a send started by a finalizer on the thread "
+               "that is already inside the transport write waits for its own lock for ever", ctx.loc(n),
+               witness=ctx.path([n] + p) if p else None)
     ctor = K.init_field_ctor(ctx, K.CONN, lock)
     okl = isinstance(ctor, ast.Call) and (A.call_name(ctor) or "").split(".")[-1] == "Lock"
     rep.ob("R12.5", "Connection.__init__: the send lock is a plain (non-reentrant) Lock", okl,
